@@ -22,6 +22,11 @@ ASSUMPTIONS = [
     'entries of other transports (launchd:, autolaunch:, unixexec:, empty), which yield no endpoint; a tcp entry '
     'without host/port or a unix entry without path makes getDBusEndpoints raise inside connect() before any '
     'Deferred exists - outside the address lists quantified over',
+    'an unreachable endpoint errbacks the Deferred of endpoint.connect(factory) with one of: ConnectionRefusedError, '
+    'DNSLookupError, TimeoutError, ConnectingCancelledError, NoRouteError, a plain Exception, ConnectError, ValueError, '
+    'FileNotFoundError, UnknownHostError (chosen from the position in the history); an endpoint.connect that RAISES '
+    'instead of returning a Deferred is not exercised: Twisted endpoints do not, and the unchanged code lets such an '
+    'exception escape from connect() / from the previous endpoint\'s errback',
     'endpoint.connect(factory) always answers (Twisted endpoints errback on refusal or timeout); a bus that never '
     'answers the handshake or Hello leaves the connect Deferred pending: txdbus has no connect timeout and the '
     'property lists no such case',
@@ -42,6 +47,11 @@ ASSUMPTIONS = [
     'iteration order of a WeakSet and copies each list when it gets there, so the result would depend on that order; '
     'the model takes every list when the proxy phase starts); no callback registers itself, directly or through '
     'another (harmless on the repaired tree, but the unrepaired loop would never return and hang a run against it)',
+    'the caller may cancel the Deferred callRemote returned (event 8): the harness calls d.cancel() on it; Deferreds of '
+    'getRemoteObject and the connect Deferred are not cancelled by the harness',
+    'two connections in one process share the reactor and the process-wide serial counter and nothing else: each must '
+    'agree with the single-connection model run alone on its own events (a message received on B is an event of B '
+    'whatever reply_serial it carries), and an event of one must leave everything observable of the other unchanged',
     'after the last event of a case virtual time is advanced far beyond every timeout: whatever is still armed fires, '
     'and the model lets every armed timer run likewise',
     '"live proxy": the harness keeps a strong reference to every proxy it obtained; what happens to callbacks of '
@@ -118,15 +128,16 @@ class FakeEndpoint:
         d = self.d
         if self.drv.sync_queue:
             # this endpoint answers before connect(factory) returns
-            self.drv.resolve_endpoint(self, self.drv.sync_queue.pop(0))
+            self.drv.resolve_endpoint(self, self.drv.sync_queue.pop(0), inside_connect=True)
         return d
 
 
 class Driver:
     """One case against the implementation."""
 
-    def __init__(self, im, case, sync=False):
+    def __init__(self, im, case, sync=False, shared_clock=None):
         self.im = im
+        self.shared_clock = shared_clock      # a second connection in the same process: same reactor, serials go on
         self.sync_queue = []
         if sync:
             for e in case[2]:
@@ -159,6 +170,13 @@ class Driver:
         self.regs = []            # the harness's own books: (owner, cb) registered and not cancelled
         self.faults = []
         self.connect_raised = None
+        self.fail_count = 0
+        self.fail_kinds = []
+        self.deferreds = {}       # call id -> the Deferred callRemote returned
+        self.serial_of = {}
+        self.cancelled = []       # call ids whose Deferred the caller cancelled while it had not fired
+        self.others = []
+        self.ep_leftover = []
         self.raised = False
         self.regs_at_loss = []
         self.issued_at_loss = 0
@@ -168,9 +186,13 @@ class Driver:
     # -- connect() with fake endpoints
     def start(self):
         im = self.im
-        self.clock = im.task.Clock()
+        if self.shared_clock is None:
+            self.clock = im.task.Clock()
+            im.message.DBusMessage._nextSerial = self.s0
+        else:
+            self.clock = self.shared_clock
+            assert im.message.DBusMessage._nextSerial == self.s0, 'the serial counter is process-wide'
         im.client.reactor = self.clock
-        im.message.DBusMessage._nextSerial = self.s0
         text = ';'.join(ADDR_TEXT[(k, v)][0] for k, v in self.addr)
         import txdbus.endpoints as eps_mod
         real = eps_mod.getDBusEndpoints
@@ -257,6 +279,8 @@ class Driver:
                 self.keep.append(dc)          # ids stay unique while we hold the objects
         cid = self.next_id
         self.next_id += 1
+        self.deferreds[cid] = d
+        self.serial_of[cid] = serial
         d.addCallbacks(self.call_ok, self.call_err, callbackArgs=(cid,), errbackArgs=(cid,))
         return cid
 
@@ -278,6 +302,8 @@ class Driver:
                                     None if vals is None else c08.canon_val(vals)]])
         elif f.check(im.error.TimeOut):
             self.done.append([cid, [3]])
+        elif f.check(im.defer.CancelledError):
+            self.done.append([cid, [6]])
         else:
             r = self.reason_id(f)
             self.done.append([cid, [4, r] if r >= 0 else [5]])
@@ -337,20 +363,41 @@ class Driver:
                     target.cancelNotifyOnDisconnect(self.cb(n))
                 except ValueError:
                     self.raised = True
+        elif t == 8:
+            d = self.deferreds.get(e[1])
+            if d is not None:
+                if not d.called:
+                    self.cancelled.append(e[1])
+                d.cancel()
         else:
             raise ValueError('bad event %r' % (e,))
 
-    def resolve_endpoint(self, ep, t):
+    def resolve_endpoint(self, ep, t, inside_connect=False):
         im = self.im
         d, ep.d = ep.d, None
         if t == 0:
-            d.errback(im.failure.Failure(im.terror.ConnectionRefusedError('refused %d' % ep.idx)))
+            # the endpoint fails; with what depends on the transport and the moment (refused, timed out, the host
+            # name does not resolve, the attempt was cancelled, a bad port, ...): any failure moves the walk on
+            kinds = endpoint_failures(im)
+            n = self.fail_count
+            self.fail_count += 1
+            exc = kinds[(n + ep.idx + len(self.events) + self.s0) % len(kinds)](ep.idx)
+            self.fail_kinds.append(type(exc).__name__)
+            d.errback(im.failure.Failure(exc))
+            # whatever connect()'s own errback leaves in the endpoint's Deferred is dropped here, not logged at exit
+            # (not when the endpoint answers before connect() has had a chance to attach its own errback)
+            if not inside_connect:
+                d.addErrback(lambda f: self.ep_leftover.append(f.type.__name__))
         else:
             p = ep.factory.buildProtocol(None)
             self.proto = p
             p.makeConnection(c08.FakeTransport())
             self.srv = 'auth'
             d.callback(p)
+
+    def foreign_timer(self, dc):
+        """with two connections on one reactor: a delayed call the OTHER connection's driver knows about"""
+        return any(id(dc) in o.timer_of for o in self.others)
 
     def run_sync(self):
         """the same history with the leading endpoint results delivered inside connect(factory);
@@ -437,7 +484,8 @@ class Driver:
         f0, d0, r0, o0 = marks
         p = self.proto
         pend = sorted(getattr(p, '_pendingCalls', None) or []) if p is not None else []
-        tims = sorted(self.timer_of.get(id(dc), -1) for dc in self.clock.getDelayedCalls())
+        tims = sorted(self.timer_of.get(id(dc), -1) for dc in self.clock.getDelayedCalls()
+                      if self.shared_clock is None or id(dc) in self.timer_of or not self.foreign_timer(dc))
         closing = bool(p is not None and not self.lost and p.transport.disconnecting)
         ep = self.outstanding_ep()
         return [self.fired[f0:], sorted(self.done[d0:], key=lambda c: c[0]), pend, tims,
@@ -470,6 +518,23 @@ class Driver:
         return init, steps
 
 
+def endpoint_failures(im):
+    """what endpoint.connect(factory) errbacks with: ConnectError subclasses and failures that are none"""
+    te = im.terror
+    return [
+        lambda i: te.ConnectionRefusedError('refused %d' % i),
+        lambda i: te.DNSLookupError('no such host %d' % i),                  # tcp:host=<name>: an IOError
+        lambda i: te.TimeoutError('timed out %d' % i),
+        lambda i: te.ConnectingCancelledError(None),
+        lambda i: te.NoRouteError('no route %d' % i),
+        lambda i: Exception('endpoint %d failed' % i),
+        lambda i: te.ConnectError(string='generic %d' % i),
+        lambda i: ValueError('port must be 0-65535'),
+        lambda i: FileNotFoundError(2, 'No such file or directory'),         # unix:path= of a socket that is not there
+        lambda i: te.UnknownHostError('unknown host %d' % i),
+    ]
+
+
 def describe_endpoint(e):
     n = type(e).__name__
     if n == 'UNIXClientEndpoint':
@@ -484,6 +549,8 @@ class Impl(c08.Impl):
         c08.Impl.__init__(self)
         from txdbus import interface
         self.iface = interface.DBusInterface('org.x.C09Explicit', interface.Method('m'))
+        from twisted.internet import defer
+        self.defer = defer
 
 
 # --------------------------------------------------------------------------
@@ -521,6 +588,11 @@ def same_step(i, m):
 def evaluate(ctx, cases, res):
     im = Impl()
     cases = list(cases)
+    two = [c for c in cases if c and c[0] == 'two']
+    if two:
+        from harness import c09_two
+        c09_two.evaluate(ctx, two, res, im)
+        cases = [c for c in cases if not (c and c[0] == 'two')]
     lines = []
     for c in cases:
         kinds = [a[0] for a in c[0]]
@@ -587,8 +659,10 @@ def evaluate(ctx, cases, res):
             fired_all = iinit + [x for st in isteps for x in st[0]]
             if fired_all != list(spec):
                 if not fired_all:
-                    why, sig = ('the Deferred of connect() never fired; the history demands %s'
-                                % ('the connection' if spec == [0] else 'a failure')), 'connect-deferred-never-fired'
+                    why, sig = ('the Deferred of connect() never fired; the history demands %s%s'
+                                % ('the connection' if spec == [0] else 'a failure',
+                                   ' (endpoints had failed with %s)' % ', '.join(drv.fail_kinds) if drv.fail_kinds else '')
+                                ), 'connect-deferred-never-fired'
                 elif len(fired_all) > 1:
                     why, sig = 'the Deferred of connect() fired more than once', 'connect-deferred-fired-twice'
                 elif not spec:
@@ -650,9 +724,15 @@ def evaluate(ctx, cases, res):
                     if ist[5] != sorted(objfails):
                         res.violate(c, 'at the loss every pending getRemoteObject must fail: expected %r, got %r'
                                     % (objfails, ist[5]), 'loss-calls-not-failed-once')
+                    cancelled_serials = [drv.serial_of[i] for i in drv.cancelled]
                     if (ist[2] or ist[3]) and not left:
-                        res.violate(c, 'after the loss _pendingCalls=%r timers=%r' % (ist[2], ist[3]),
-                                    'loss-timer-or-entry-left')
+                        if ist[3] and all(t_ in cancelled_serials for t_ in ist[3]) and not ist[2]:
+                            res.violate(c, 'after the loss the timeout of a call whose Deferred the caller had cancelled is '
+                                           'still armed: timers %r (cancelled calls had the serials %r)'
+                                        % (ist[3], cancelled_serials), 'loss-cancelled-call-timer-left')
+                        else:
+                            res.violate(c, 'after the loss _pendingCalls=%r timers=%r' % (ist[2], ist[3]),
+                                        'loss-timer-or-entry-left')
                     if ist[4] != runs:
                         missing = [r for r in runs if r not in ist[4]]
                         sig = 'loss-callback-not-run-once'
@@ -794,6 +874,8 @@ class Gen:
                     evs.append(ret(s, rng.choice(c08.REPLIES)))
                 else:
                     evs.append(err(s, rng.choice(c08.ERRNAMES), rng.choice(c08.ERRBODIES)))
+            elif calls and rng.random() < 0.5:
+                evs.append([8, rng.randrange(1, 6)])
             elif calls:
                 evs.append(timer(rng.choice(calls)))
             else:
@@ -908,6 +990,63 @@ class Gen:
                     for _ in range(rng.randrange(0, 3))]
             yield self.reentrant_case(k, [rng.randrange(0, 2) for _ in range(k)], order, acts, post)
 
+    # P. what "registered and not cancelled" means, owner by owner: every sequence of <= maxlen register / cancel
+    #    requests over two callbacks on the connection, on an explicit proxy, on an introspected proxy (cancel down to
+    #    none left, register again, cancel what is not there, the same callback twice ...), then the loss
+    def registration_orders(self, maxlen):
+        rng = self.rng
+        ops = [(6, 81), (6, 82), (7, 81), (7, 82)]
+        for kind in ('connection', 'explicit', 'introspected'):
+            for n in range(0, maxlen + 1):
+                for seq in itertools.product(ops, repeat=n):
+                    addr = [self.addr_entry(rng.choice([0, 1, 2]))]
+                    s0 = rng.choice([1, 5, 40, 1000])
+                    evs = [[1], [2], self.hello_ok(s0)]
+                    if kind == 'connection':
+                        owner = []
+                        evs += [[5, 0, 3], [6, [0], 90]]
+                    else:
+                        owner = [0]
+                        evs += [[5, 0, 1]] if kind == 'explicit' else [[5, 1, 2], ret(s0 + 1, [['s'], ['x']])]
+                        evs += [[5, 0, 3], [6, [1], 90], [6, [], 91]]      # a second proxy and the connection: controls
+                    evs += [[t, owner, cb] for t, cb in seq]
+                    evs.append(lost(rng.randrange(1, 4)))
+                    yield [addr, s0, evs]
+
+    # K. the caller cancels the Deferred of a call: k <= 2 calls, each with or without deadline, optionally one of
+    #    {its reply, its error reply, its expiry} somewhere; the cancellation of either call at every position after the
+    #    call, twice, of Deferreds that do not exist; the loss at every position after the cancellation and at the end;
+    #    afterwards every serial's timer ticks and late replies arrive, and virtual time runs on
+    def cancellations(self, full):
+        rng = self.rng
+        for k in (1, 2):
+            for deadlines in itertools.product((0, 1), repeat=k):
+                for extra in [None] + [(j, how) for j in range(k) for how in 'RET']:
+                    s0 = rng.choice([1, 5, 40, 1000])
+                    base = [[1], [2], self.hello_ok(s0), [6, [], 31]]
+                    ser = [s0 + 1 + j for j in range(k)]
+                    base += [call(rng.choice([2, 5, 30]) if deadlines[j] else None) for j in range(k)]
+                    first = len(base) - k           # position of the first call
+                    if extra:
+                        j, how = extra
+                        if how == 'T' and not deadlines[j]:
+                            continue
+                        base.append(ret(ser[j], rng.choice(c08.REPLIES)) if how == 'R' else
+                                    err(ser[j], rng.choice(c08.ERRNAMES), rng.choice(c08.ERRBODIES)) if how == 'E' else
+                                    timer(ser[j]))
+                    post = [timer(x) for x in ser] + [ret(ser[0], c08.REPLIES[2]), [8, 1], call(3), [8, k + 1]]
+                    for j in range(k):
+                        cid = 1 + j
+                        for pos in range(first + j + 1, len(base) + 1):
+                            evs = base[:pos] + [[8, cid]] + base[pos:]
+                            addr = [self.addr_entry(rng.choice([0, 1, 2]))]
+                            yield [addr, s0, evs + [lost(rng.randrange(1, 4))] + post]
+                            if full or (pos + j) % 2 == 0:
+                                for lp in range(pos + 1, len(evs)):
+                                    yield [addr, s0, evs[:lp] + [lost(rng.randrange(1, 4))] + evs[lp:] + post]
+                            yield [addr, s0, evs[:pos + 1] + [[8, cid], [8, 9], [8, 0]] + evs[pos + 1:] +
+                                   [lost(rng.randrange(1, 4))] + post]
+
     # C. fixed scenarios: the witnesses of D12 / D13 and the boundary of the serial counter
     def scenarios(self):
         a1 = [[0, 0]]
@@ -971,6 +1110,10 @@ def gen_cases(ctx):
     g = Gen(ctx)
     yield from g.scenarios()
     yield from g.connecting(ctx.n(3, 3))
+    yield from g.registration_orders(ctx.n(4, 5))
+    from harness import c09_two
+    yield from c09_two.gen_cases(ctx, g)
+    yield from g.cancellations(not ctx.quick)
     yield from g.reentrant(not ctx.quick)
     yield from g.in_flight(not ctx.quick)
     yield from g.established_family(ctx.n(500, 12000), ctx.n(10, 14))
@@ -1019,7 +1162,14 @@ def run(ctx, res):
                 '(B) established connections: random programs of <= %d actions (<= 3 calls with and without deadlines, '
                 'explicit and introspected proxies, callbacks registered/cancelled on connection and proxies, replies, '
                 'error replies, expiries) with the loss inserted at every position after Hello, followed by up to 3 late '
-                'events; (R) acting disconnect callbacks: each of 16 connection-level actions (call with/without '
+                'events; (P) every sequence of <= %d notifyOnDisconnect / cancelNotifyOnDisconnect requests over two '
+                'callbacks on the connection, an explicit proxy, an introspected proxy, then the loss; '
+                '(T) two connections alive in one process (harness/c09_two.py): each ready with 1-2 / 0-2 calls in '
+                'flight, callbacks and a proxy; replies and error replies arriving on one connection with a serial '
+                'pending on the other, expiries, the loss of either, then the genuine replies; '
+                '(K) the caller cancels the Deferred of a call: 1-2 calls with and without deadline, optionally a reply / '
+                'error reply / expiry, the cancellation at every later position (also repeated, and of Deferreds that do '
+                'not exist), the loss at every position after it; (R) acting disconnect callbacks: each of 16 connection-level actions (call with/without '
                 'deadline, register/cancel on the connection or a proxy, cancel itself / a later / an absent callback) x 3 '
                 'positions of the acting callback x 0-2 calls in flight, the same for callbacks on either proxy, the '
                 'shape "every acting callback issues calls", and random programs for 1-4 acting callbacks; virtual time '
@@ -1027,7 +1177,7 @@ def run(ctx, res):
                 '(C) fixed scenarios incl. the serial boundary 2^32; (D) arbitrary event sequences of <= 15 '
                 'events.  Address text variants, serials and reply shapes inside the families come from the seeded PRNG.  '
                 'non-trivial = an endpoint connects and the history has >= 3 events; distinct by hash of the case'
-                % ctx.n(10, 14))
+                % (ctx.n(10, 14), ctx.n(4, 5)))
     block = []
     for c in gen_cases(ctx):
         block.append(c)
